@@ -273,7 +273,7 @@ fn small_alphabet<W: Wt>(len: usize) -> Vec<Lit> {
     } else {
         let m = W::max_val().div_u32(len as u32).as_u128().unwrap();
         a.push(m.to_string());
-        if let Some(x) = W::from_u128(m + 1) {
+        if let Some(x) = m.checked_add(1).and_then(W::from_u128) {
             a.push(x.lit());
         }
         if W::SIGNED {
